@@ -43,6 +43,9 @@ def projects(d: Path):
           R(["#HCL"], ["HCL"], "DEUVCR"), R(["#HCL"], ["HCL"], "DESCR"), R(["CO"], ["#CO"], "FREEZE"), R(["#CO"], ["CO"], "THERM"), R(["H", "CL"], ["HCL"], "MA"),
           R(["C", "O"], ["CO"], "MA"), R(["HE"], ["HE+", "E-"], "CRP")]
     (d / "up.ucl").write_text("\n".join(encoders.uclchem(x) for x in up) + "\n")
+    gl = [R(["H", "H"], ["H2"], 1, a=6.59e-11), R(["GRAIN0", "e-"], ["GRAIN-"], 20, a=1.0), R(["C+", "GRAIN-"], ["C", "GRAIN0"], 6, a=1.0),
+          R(["CO"], ["GCO"], 7, a=1.0), R(["GCO"], ["CO"], 8, a=1.0)]
+    (d / "grain.leeds").write_text("\n".join(encoders.leeds(dict(x, tmin=5.0, tmax=41000.0)) for x in gl) + "\n")
     from naunet.species import Species
     de, dp = list(Species.default_elements), list(Species.default_pseudoelements)
     return [
@@ -50,7 +53,7 @@ def projects(d: Path):
              heating=[], cooling=[], binding=[("#CO", "1234.5"), ("#H", "650.0")], yields=[("#CO", "0.002")], shielding=[("CO", "VB88Table")],
              rate_modifier=[("2", "1.0e-9 * zeta")], ode_modifier=[("H2", "-2.0*H2formation", ["H", "H"]), ("H", "0.5*k[1]", ["H2"])], grain_model="rr07x",
              surface="#", bulk="@", grain="GRAIN"),
-        dict(name="kida", elements=de, pseudo_elements=dp, replacement=[], allowed=["C", "CH", "H", "C2"], required=[], files=["minimal.kida"],
+        dict(name="kida", elements=de, pseudo_elements=dp, replacement=[], allowed=["C", "CH", "H", "C2", "CH2"], required=["CH2"], files=["minimal.kida"],
              formats=["kida"], heating=[], cooling=[], binding=[], yields=[], shielding=[], rate_modifier=[("6599", "4.2e-10"), ("4894", "0.0")],
              ode_modifier=[], grain_model="", surface="#", bulk="B", grain="GRAIN"),
         dict(name="krome", elements=de, pseudo_elements=dp, replacement=[], allowed=[], required=[], files=["primordial.krome"], formats=["krome"],
@@ -63,6 +66,9 @@ def projects(d: Path):
         dict(name="upperice", elements=["E", "H", "HE", "C", "O", "CL"], pseudo_elements=["CR", "CRP", "PHOTON", "CRPHOT"], replacement=[("HE", "He"), ("CL", "Cl")],
              allowed=[], required=[], files=["up.ucl"], formats=["uclchem"], heating=[], cooling=[], binding=[("#HCL", "4321.0"), ("#CO", "1234.5")],
              yields=[("#HCL", "0.003")], shielding=[], rate_modifier=[], ode_modifier=[], grain_model="rr07x", surface="#", bulk="@", grain="GRAIN"),
+        # explicit grain species (GRAIN0, GRAIN-) and a Leeds-spelled ice
+        dict(name="leedsgrain", elements=de, pseudo_elements=dp, replacement=[], allowed=[], required=[], files=["grain.leeds"], formats=["leeds"], heating=[],
+             cooling=[], binding=[], yields=[], shielding=[], rate_modifier=[], ode_modifier=[], grain_model="hh93", surface="G", bulk="@", grain="GRAIN"),
     ]
 
 
@@ -108,12 +114,12 @@ def main(ctx: Ctx) -> int:
     cwd0 = os.getcwd()
     traces = []
     solvers = [("cvode", "dense"), ("cvode", "sparse"), ("odeint", "rosenbrock4")]
-    nrun = 10 if ctx.quick else 60
+    nrun = 12 if ctx.quick else 72
     for k in range(nrun):
         d = ctx.sub("proj") / str(k)
         d.mkdir()
-        base = projects(d)[k % 5]
-        solver, method = solvers[(k // 5) % 3]
+        base = projects(d)[k % 6]
+        solver, method = solvers[(k // 6) % 3]
         # --- tokens with shapes
         ids: dict = {}
 
@@ -154,7 +160,7 @@ def main(ctx: Ctx) -> int:
             req[opt] = [{"shape": "plain", "id": tid_of(opt, val)}]
             cli.append(f"--{cname}='{val}'" if val != "" else f"--{cname}=null")
         oms = [f"{kk}:{fact},[{' '.join(deps)}]" for kk, fact, deps in base["ode_modifier"]]
-        if len(oms) > 1 and (k // 5) % 2 == 1:
+        if len(oms) > 1 and (k // 6) % 2 == 1:
             # the option may be given several times, each value a ';'-separated list that may end with ';' (the form `naunet example` writes)
             omopts = [f"--ode-modifier='{x};'" for x in oms]
         else:
@@ -275,8 +281,78 @@ def main(ctx: Ctx) -> int:
                     os.chdir(cwd0)
                     diff = [f"{type(e).__name__}: {str(e)[:120]}"]
                 ev.append({"act": "Sources", "same": same, "diff": diff[:6]})
+                # the summary the command wrote back, against the generated headers
+                try:
+                    import creader
+                    sm = dict(tomlkit.loads((d / "naunet_config.toml").read_text())["summary"])
+                    mc = creader.parse_macros((d / "include" / "naunet_macros.h").read_text())
+                    facts = {"num_of_species = NSPECIES": sm["num_of_species"] == mc["NSPECIES"], "num_of_elements = NELEMENTS": sm["num_of_elements"] == mc["NELEMENTS"],
+                             "num_of_reactions = NREACTIONS": sm["num_of_reactions"] == mc["NREACTIONS"] or (sm["num_of_reactions"] == 0 and mc["NREACTIONS"] == 1),
+                             "len(list_of_species)": len(sm["list_of_species"]) == sm["num_of_species"],
+                             "len(list_of_species_alias)": len(sm["list_of_species_alias"]) == sm["num_of_species"],
+                             "len(list_of_elements)": len(sm["list_of_elements"]) == sm["num_of_elements"],
+                             "gas + ice = all": sm["num_of_gas_species"] + sm["num_of_ice_species"] == sm["num_of_species"],
+                             "len(gas list)": len(sm["list_of_gas_species"]) == sm["num_of_gas_species"], "len(ice list)": len(sm["list_of_ice_species"]) == sm["num_of_ice_species"],
+                             "len(grain list)": len(sm["list_of_grain_species"]) == sm["num_of_grain_species"]}
+                    ev.append({"act": "Summary", "consistent": all(facts.values()), "failed": [k2 for k2, v2 in facts.items() if not v2]})
+                except Exception as e:   # noqa
+                    ev.append({"act": "Summary", "consistent": False, "failed": [f"{type(e).__name__}: {str(e)[:80]}"]})
         traces.append({"tid": len(traces) + 1, "req": req, "ev": ev, "cli": " ".join(x for x in cli if x)[:600], "project": base["name"], "be": f"{solver}/{method}"})
         Species.reset()
+    # `naunet example --select=i`: the command line it hands to `naunet init` (obtained with --dry, executed without --render) must write
+    # the tables of the example module into the configuration
+    import importlib
+    import io
+    import contextlib
+    from naunet.console.commands.example import ExampleCommand
+    app.add(ExampleCommand())
+    nex = 0
+    for sel, exname in ((0, "empty"), (4, "minimal"), (8, "primordial"), (12, "deuterium"), (16, "cloud"), (19, "ism")):
+        d = ctx.sub("example") / exname
+        d.mkdir()
+        os.chdir(d)
+        diff = []
+        try:
+            buf = io.StringIO()
+            with contextlib.redirect_stdout(buf):
+                CommandTester(app.find("example")).execute(f"--dry --select={sel}", interactive=False)
+            m = re.search(r"naunet init (.*)", buf.getvalue(), re.S)
+            if not m:
+                raise MachineryError(f"`naunet example --dry --select={sel}` printed no init command")
+            opts = re.sub(r"\s--render(-force)?\b", " ", " " + m.group(1).strip())
+            Species.reset()
+            with quiet():
+                CommandTester(app.find("init")).execute(opts, interactive=False)
+            conf = tomlkit.loads((d / "naunet_config.toml").read_text())["chemistry"]
+            mod = importlib.import_module(f"naunet.examples.{exname}")
+
+            def num_or_text(x):
+                try:
+                    return float(x)
+                except (TypeError, ValueError):
+                    return str(x).strip()
+            pairs = [("rate_modifier", {str(k2): num_or_text(v2) for k2, v2 in mod.rate_modifier.items()}, {str(k2): num_or_text(v2) for k2, v2 in dict(conf["rate_modifier"]).items()}),
+                     ("binding_energy", {k2: float(v2) for k2, v2 in mod.binding_energy.items()}, {k2: float(v2) for k2, v2 in dict(conf["species"]["binding_energy"]).items()}),
+                     ("photon_yield", {k2: float(v2) for k2, v2 in mod.photon_yield.items()}, {k2: float(v2) for k2, v2 in dict(conf["species"]["photon_yield"]).items()}),
+                     ("shielding", dict(mod.shielding), {k2: str(v2).strip() for k2, v2 in dict(conf["shielding"]).items()}),
+                     ("replacement", dict(mod.element_replacement), {k2: str(v2).strip() for k2, v2 in dict(conf["element"]["replacement"]).items()}),
+                     ("elements", list(mod.elements), list(conf["element"]["elements"])), ("pseudo_elements", list(mod.pseudo_elements), list(conf["element"]["pseudo_elements"])),
+                     ("allowed", list(mod.allowed_species), list(conf["species"]["allowed"])), ("required", list(mod.extra_species), list(conf["species"]["required"])),
+                     ("heating", list(mod.heating), list(conf["thermal"]["heating"])), ("cooling", list(mod.cooling), list(conf["thermal"]["cooling"])),
+                     ("grain_model", mod.grain_model, conf["grain"]["model"]),
+                     ("ode_modifier species", sorted(mod.ode_modifier), sorted(dict(conf["ode_modifier"])))]
+            diff = [f"{name}: example {a!r:.120} / configuration {b!r:.120}" for name, a, b in pairs if a != b]
+        except MachineryError:
+            raise
+        except Exception as e:   # noqa
+            diff = [f"{type(e).__name__}: {str(e)[:160]}"]
+        finally:
+            os.chdir(cwd0)
+            Species.reset()
+        nex += 1
+        traces.append({"tid": len(traces) + 1, "req": {}, "ev": [{"act": "Example", "same": not diff, "diff": diff[:5]}], "cli": f"naunet example --select={sel}",
+                       "project": f"example {exname}", "be": "-"})
+    cov["bundled_examples_configured"] = nex
     v = validate_traces(ctx, "Trace_ConfigRoundTrip.tla", "Trace_ConfigRoundTrip.cfg", [{k2: t[k2] for k2 in ("tid", "req", "ev")} for t in traces], "cfg")
     cov["traces_validated_against_impl"] = len(traces)
     cov["traces_accepted"] = v["accepted"]
@@ -293,7 +369,7 @@ def main(ctx: Ctx) -> int:
     # histories of a project directory (Project.tla): init / hand edit / render [--force] / render --patch / second init
     import project_life
     project_life.run(ctx, cov)
-    cov["rule"] = "init+render runs over five project kinds x three solver choices with padded / empty tokens in list options; non-trivial = every run"
+    cov["rule"] = "init+render runs over six project kinds x three solver choices with padded / empty tokens in list options; non-trivial = every run"
     cov["exhaustive"] = False
     return finish(ctx, "model_checking", cov, [
         "token strings live in the driver; TLC sees shapes and ids (per option) and judges the four stages and the field-wise equality",
